@@ -349,3 +349,22 @@ def _many(k):
 
 
 REGRESSIONS += [_many(34), _many(66)]
+
+
+def _wide(n):
+    """Long axes with few non-zeros (index types sized after the number of
+    entries must still hold every position)."""
+    a = {"obs": ["O%d" % i for i in range(n)], "samp": ["S0", "S1"],
+         "rows": [[1.0 if i % 97 == 0 else 0.0, 0.0] for i in range(n)],
+         "type": None, "form": "csr", "history": [], "obs_md": None,
+         "samp_md": None}
+    b = {"obs": ["O%d" % (i + n // 2) for i in range(n)], "samp": ["S1", "S2"],
+         "rows": [[0.0, 2.0 if i % 89 == 0 else 0.0] for i in range(n)],
+         "type": None, "form": "csr", "history": [], "obs_md": None,
+         "samp_md": None}
+    return {"operands": [a, b], "form": "pair", "sample": "union",
+            "observation": "union", "mdf": "default", "values": "int",
+            "self_merge": False}
+
+
+REGRESSIONS += [_wide(300), _wide(700)]
